@@ -29,7 +29,7 @@ func init() {
 			"termination is observed by the per-run watchdog (a hang makes the run inconclusive, with the case id in the worker's current-case file)",
 			"the prefix relation is event-for-event on (delta, canonical message bytes); a missing end-of-track at the end of the last track is a legitimate prefix",
 		},
-		Require: []string{"many_chunks_small_stack_reads", "shape_additivity_checks", "reads_after_failed_read", "sequence_failed_reads", "truncations", "truncation_results_ok_value", "truncation_results_error", "mutants", "random_strings", "targeted", "alloc_measurements", "reads_with_log", "big_payload_truncations", "proportionality_checks", "concurrent_truncation_files", "reads_from_sources_without_len_or_seek", "kept_truncation_results_rechecked"},
+		Require: []string{"many_chunks_small_stack_reads", "shape_additivity_checks", "reads_after_failed_read", "sequence_failed_reads", "truncations", "truncation_results_ok_value", "truncation_results_error", "mutants", "random_strings", "targeted", "alloc_measurements", "reads_with_log", "big_payload_truncations", "proportionality_checks", "concurrent_truncation_files", "reads_from_sources_without_len_or_seek", "kept_truncation_results_rechecked", "proportionality_checks_event_counts"},
 		UsesCur: true,
 		Run:     runC05,
 	})
@@ -521,6 +521,43 @@ func runC05(c *mon.Ctx) {
 			c.Violation("alloc-superlinear", fmt.Sprintf("allocation per input byte grows with the input: %.1f B/B for %d bytes, %.1f B/B for %d bytes", perByte[0], sizes[0], perByte[len(perByte)-1], sizes[len(sizes)-1]), fmt.Sprint(sizes), fmt.Sprintf("about %.1f B/B", perByte[0]), fmt.Sprint(perByte))
 		}
 		c.DistinctBytes([]byte(fmt.Sprint("prop", i)))
+	})
+
+	// the same for EVENT counts: one track of 200 000 two-byte events against one of 1.6 million (thorough 3.2 million);
+	// a track that is re-allocated in constant steps costs time and memory that grow with the square of its length
+	c.Each("proportionality-events", c.N(2, 4), func(i int64, r *mon.Rand) {
+		counts := []int{200_000, 1_600_000}
+		if c.Thorough() {
+			counts = []int{200_000, 3_200_000}
+		}
+		var perByte []float64
+		for _, n := range counts {
+			body := make([]byte, 0, 2*n+12)
+			body = append(body, 0x00, 0xC0|byte(i), 0x01) // status once, then running status: delta + one data byte per event
+			for k := 1; k < n; k++ {
+				body = append(body, byte(k&1), byte(k&127))
+			}
+			body = append(body, 0x00, 0xFF, 0x2F, 0x00)
+			b := cat(hdr(0, 1, 96), trk(body...))
+			c.CurPayload([]byte(fmt.Sprintf("file with one track of %d two-byte events", n)))
+			runtime.GC()
+			runtime.ReadMemStats(&k.ms)
+			before := k.ms.TotalAlloc
+			s, err := smf.ReadFrom(opaqueReader{bytes.NewReader(b)})
+			runtime.ReadMemStats(&k.ms)
+			if err != nil || s == nil || len(s.Tracks) != 1 || len(s.Tracks[0]) != n+1 {
+				c.Violation("big-file", fmt.Sprintf("valid file with one track of %d events does not read completely: %v", n, err), n, nil, nil)
+				return
+			}
+			perByte = append(perByte, float64(k.ms.TotalAlloc-before)/float64(len(b)))
+			c.Count("alloc_measurements", 1)
+		}
+		c.MaxOf("max_alloc_bytes_per_input_byte_long_tracks", perByte[len(perByte)-1])
+		c.Count("proportionality_checks_event_counts", 1)
+		if perByte[len(perByte)-1] > 2*perByte[0]+8 {
+			c.Violation("alloc-superlinear", fmt.Sprintf("allocation per input byte grows with the number of events of a track: %.1f B/B for %d events, %.1f B/B for %d events", perByte[0], counts[0], perByte[len(perByte)-1], counts[len(counts)-1]), fmt.Sprint(counts), fmt.Sprintf("about %.1f B/B", perByte[0]), fmt.Sprint(perByte))
+		}
+		c.DistinctBytes([]byte(fmt.Sprint("propev", i)))
 	})
 
 	// ---- shapes: what a file costs must be about the sum of what its parts cost. One long track among many
